@@ -489,6 +489,11 @@ class Envelope:
                 operators, *states, destructive=destructive
             )
 
+        # Both spaces are measured: combine them first, so that the product state
+        # can be expanded and brought into the order of the given states
+        if len(states) == 2 and self.state is None:
+            self.combine()
+
         # Expand to matrix state if not alreay in it
         assert isinstance(self.expansion_level, ExpansionLevel)
         while self.expansion_level < ExpansionLevel.Matrix:
@@ -496,9 +501,6 @@ class Envelope:
 
         self.reorder(*states)
         C = Config()
-
-        if len(states) == 2 and self.state is None:
-            self.combine()
 
         reshape_shape = [-1, -1]
         assert isinstance(self.fock.index, int) and isinstance(
